@@ -756,6 +756,39 @@ func (env *SpecEnv) evalCall(x *ECall) (sval, error) {
 				return sval{}, fmt.Errorf("deref of non-pointer %s", v.typ)
 			}
 			return env.sv(f.load(env.state(), v.t, pt.Elem()), pt.Elem()), nil
+		case "sameElems":
+			// sameElems(a, b): slices a and b hold equal elements (same length assumed by the caller)
+			if len(x.Args) != 2 {
+				return sval{}, fmt.Errorf("sameElems takes two arguments")
+			}
+			a, err := env.eval(x.Args[0])
+			if err != nil {
+				return sval{}, err
+			}
+			b, err := env.eval(x.Args[1])
+			if err != nil {
+				return sval{}, err
+			}
+			if a.sort != "Slice" || b.sort != "Slice" || a.typ == nil {
+				return sval{}, fmt.Errorf("sameElems needs two typed slices")
+			}
+			if isByteSlice(a.typ) {
+				as, _ := env.asStr(a)
+				bs, _ := env.asStr(b)
+				return sval{t: env.strEq(as, bs), sort: "Bool"}, nil
+			}
+			et := a.typ.Underlying().(*types.Slice).Elem()
+			var conj []string
+			for _, lf := range leaves(et) {
+				if _, ok := lf.typ.Underlying().(*types.Array); ok {
+					continue
+				}
+				h := f.heap(env.state(), heapName(lf.typ))
+				pa := addrPath(fmt.Sprintf("(selem %s ei)", a.t), lf.path)
+				pb := addrPath(fmt.Sprintf("(selem %s ei)", b.t), lf.path)
+				conj = append(conj, fmt.Sprintf("(forall ((ei Int)) (! (=> (and (<= 0 ei) (< ei (slen_ %s))) (= (select %s %s) (select %s %s))) :pattern ((select %s %s))))", a.t, h, pa, h, pb, h, pa))
+			}
+			return sval{t: And(conj...), sort: "Bool"}, nil
 		case "same":
 			// same(a, b): identical values (for slices: same backing store,
 			// offset, length and capacity — not just equal contents).
@@ -1023,11 +1056,13 @@ func (env *SpecEnv) applySpecFun(sf *SpecFun, argExprs []Expr) (sval, error) {
 	}
 	var args []string
 	var psorts []string
+	var atyps []types.Type
 	for i, a := range argExprs {
 		v, err := env.eval(a)
 		if err != nil {
 			return sval{}, err
 		}
+		atyps = append(atyps, nil)
 		ps, ok := specSort(f.ctx, sf.Params[i].Type)
 		if !ok {
 			return sval{}, fmt.Errorf("spec fun %s: unknown sort %s", sf.Name, sf.Params[i].Type)
@@ -1047,6 +1082,8 @@ func (env *SpecEnv) applySpecFun(sf *SpecFun, argExprs []Expr) (sval, error) {
 			}
 		} else if ps != v.sort {
 			return sval{}, fmt.Errorf("spec fun %s: argument %d has sort %s, want %s", sf.Name, i, v.sort, ps)
+		} else {
+			atyps[i] = v.typ // keep the Go type so the body can index/select
 		}
 		args = append(args, t)
 	}
@@ -1066,7 +1103,7 @@ func (env *SpecEnv) applySpecFun(sf *SpecFun, argExprs []Expr) (sval, error) {
 			}
 		}
 		for i, p := range sf.Params {
-			sub.vars[p.Name] = sval{t: args[i], sort: psorts[i]}
+			sub.vars[p.Name] = sval{t: args[i], sort: psorts[i], typ: atyps[i]}
 		}
 		v, err := sub.eval(sf.Body)
 		if err != nil {
